@@ -246,14 +246,14 @@ theorem coupled_nick {s : Srv} {b : Bot} (hw : SrvWF s) (hc : Coupled s b) (n n'
             by_cases e : u.nick = b.nick
             · simp [e, hnick_ne, hid_ne, hho_ne]
             · simp [e]
-          rw [feed_plain b _ hne' (setters_out_ok "NICK".toList (by decide)) (by rw [hirc])]
+          rw [feed_plain b _ (tagOK_of_ok hc.isup _) hne' (setters_out_ok "NICK".toList (by decide)) (by rw [hirc])]
           rw [hirc]
           simp only [Bot.prelude, bne_self_eq_false, Bool.and_false, Bool.false_eq_true, ↓reduceIte,
             Bot.stateCmd, cmdOf_NICK, Bot.doNick, msg_nick_user huo, msg_user_user huo, msg_host_user huo,
             hid_ne, hho_ne, hnick_ne, Bool.not_false, Bool.and_self]
         rw [hfeed]
         have hmask : mkHostmask n' u.ident u.host = ({ u with nick := n' } : SUser).mask := rfl
-        refine ⟨?_, ?_, ?_, ?_, by rw [hcfg']; exact hc.cfgNick, by rw [hcfg']; exact hc.cfgIdent⟩
+        refine ⟨?_, ?_, ?_, ?_, by rw [hcfg']; exact hc.cfgNick, by rw [hcfg']; exact hc.cfgIdent, hc.isup⟩
         · subst hs'
           show (if u.nick = b.nick then n' else b.nick) = if lower n = s.botKey then n' else s.bot
           by_cases hown : lower n = s.botKey
@@ -309,7 +309,7 @@ theorem coupled_nick {s : Srv} {b : Bot} (hw : SrvWF s) (hc : Coupled s b) (n n'
         simp only [hsee', Bool.false_eq_true, ↓reduceIte, recvAll_nil]
         simp only [Bool.or_eq_false_iff, decide_eq_false_iff_not] at hsee'
         obtain ⟨hown, hinv⟩ := hsee'
-        refine ⟨?_, ?_, ?_, ?_, by rw [hcfg']; exact hc.cfgNick, by rw [hcfg']; exact hc.cfgIdent⟩
+        refine ⟨?_, ?_, ?_, ?_, by rw [hcfg']; exact hc.cfgNick, by rw [hcfg']; exact hc.cfgIdent, hc.isup⟩
         · subst hs'
           show b.nick = if lower n = s.botKey then n' else s.bot
           rw [if_neg hown]; exact hc.nick
